@@ -237,13 +237,15 @@ def _loopback(ck, p):
         return
     ck.saw(main)
     pv = Prov(main)
-    binds = [(bi, t) for bi, t in main.calls() if (t["f"].get("inst") or "").startswith("tokio::net::") and S_NETLIKE.search(t["f"].get("inst") or "")]
+    # every socket-creating / sending call of any socket API (tokio, std, unix-domain, mio, socket2) made by
+    # main itself - helpers that are new since the reference tree are spliced in by A0
+    binds = [(bi, t) for bi, t in main.calls() if re.search(r"(^|::)net::|^socket2::|^mio::", norm(t["f"].get("inst") or "")) and S_NETLIKE.search(norm(t["f"].get("inst") or ""))]
     ck.floor(rule, "socket-creating calls in main", len(binds), 1)
     for bi, t in binds:
         inst = t["f"]["inst"]
         key = "loopback:%s" % inst
-        if not inst.endswith("::bind"):
-            ck.refuted(rule, key, main.loc(t["ln"]), "main creates a network association other than TcpListener::bind: %s" % inst)
+        if not (inst.endswith("::bind") and "tokio::net::" in inst and "tcp" in inst.lower()):
+            ck.refuted(rule, key, main.loc(t["ln"]), "main creates a network association other than the TcpListener::bind its editor connects to: %s - the language server would talk to (or be reachable by) something else than its editor" % inst)
             continue
         origins = flatten(pv.trace_operand(t["args"][0]))
         lits = []
@@ -295,7 +297,7 @@ def _loopback(ck, p):
             ck.decide(rule, key, addr_ok, main.loc(t["ln"]), "listener address constant(s) %s %s loopback IP literals" % (vals, "are" if addr_ok else "are NOT all"))
 
 
-S_NETLIKE = re.compile(r"::(bind|connect|connect_std|connect_addr|bind_addr|unbound|pair|send_to|lookup_host)$")
+S_NETLIKE = re.compile(r"::(bind|connect|connect_std|connect_addr|connect_timeout|bind_addr|unbound|pair|send_to|send_to_addr|send|sendto|lookup_host|to_socket_addrs)$")
 
 
 # ---- open::that only under the HarperOpen command ------------------------------------------
